@@ -18,6 +18,7 @@ package main
 import (
 	"go/token"
 	"os"
+	"strconv"
 
 	"golang.org/x/tools/go/ssa"
 )
@@ -107,6 +108,29 @@ func (w *World) edgeContradicted(a *absint, at ssa.Instruction, asserted []Fact,
 						if k, isK := constInt(bo.Y); isK && w.multipleOf(bo.X, k, 0, map[ssa.Value]bool{}) {
 							return true
 						}
+					}
+				}
+			}
+		}
+		// X == c claimed of a value whose range excludes c; X != c of a value that can only be c
+		if f.Op == "==" && f.X != nil && f.Y != nil && isIntType(f.X.Type()) {
+			for _, pair := range [][2]ssa.Value{{f.X, f.Y}, {f.Y, f.X}} {
+				if cst, isC := constInt(pair[1]); isC {
+					if _, isC2 := constInt(pair[0]); isC2 {
+						continue
+					}
+					r := a.rangeOfTerm(termOf(pair[0]), at, 3)
+					if os.Getenv("TURNCHECK_DEADDEBUG") != "" {
+						os.Stderr.WriteString("EQRANGE " + w.instrPos(at) + " " + w.key(pair[0]) + " truth=" + map[bool]string{true: "T", false: "F"}[f.Truth] + " c=" + strconv.Itoa(int(cst)) + " range=" + r.String() + "\n")
+					}
+					if r.empty() {
+						continue
+					}
+					if f.Truth && (cst < r.lo || cst > r.hi) {
+						return true
+					}
+					if !f.Truth && r.lo == cst && r.hi == cst {
+						return true
 					}
 				}
 			}
